@@ -464,6 +464,18 @@ func (c *Ctx) Cmp(op Op, a, b *T) *T {
 			}
 		}
 	}
+	// (x | y) < 2^k  <=>  x < 2^k and y < 2^k   (the "both operands are small" idiom;
+	// keeps such guards expressible in the integer rendering)
+	if (op == Ult || op == Ule) && a.Op == Or && b.IsConst() && a.W > 0 {
+		lim := new(big.Int).Set(b.ConstBig())
+		if op == Ule {
+			lim.Add(lim, big.NewInt(1))
+		}
+		if lim.Sign() > 0 && lim.BitLen() <= a.W && new(big.Int).And(lim, new(big.Int).Sub(lim, big.NewInt(1))).Sign() == 0 {
+			k := c.BVBig(a.W, lim)
+			return c.AndB(c.Cmp(Ult, a.A[0], k), c.Cmp(Ult, a.A[1], k))
+		}
+	}
 	// push a comparison with a constant through an ite with constant arms
 	if b.IsConst() && a.Op == Ite && constArms(a, 4) {
 		return c.IteT(a.A[0], c.Cmp(op, a.A[1], b), c.Cmp(op, a.A[2], b))
